@@ -185,7 +185,9 @@ class Engine:
         if isinstance(T_, TEnum):
             return VEnum(T_.cls, z3.Int(base))
         if isinstance(T_, TFunc):
-            return VFunc(z3.Int(base), T_)
+            f_ = z3.Int(base)
+            st.pc.append(f_ > 0)
+            return VFunc(f_, T_)
         if isinstance(T_, TTuple):
             return VTuple([self.sym_value(st, t, '%s#%d' % (base, i)) for i, t in enumerate(T_.items)])
         if isinstance(T_, (TRef, TList, TTable, TQueue)):
@@ -593,9 +595,10 @@ class Engine:
         for uu in self.units_by_key.get(fi.key, []):
             for c in uu.of('returns'):
                 T_ = parse_type(ast.literal_eval(c.args[0]))
-        if T_ is None:
-            return self.fresh_any(st)
-        return self.sym_value(st, T_, 'ret!%d' % next(st.fresh_counter))
+        ev = VRef(z3.simplify(st.tlen() - 1), 'Event')
+        result = self.fresh_any(st) if T_ is None else self.sym_value(st, T_, 'ret!%d' % next(st.fresh_counter))
+        self.apply_callout_assumes(it, st, fn, result, ev)
+        return result
 
     def fresh_arr(self, st, base, sort):
         c = st.fresh(base, sort)
@@ -881,7 +884,17 @@ class Engine:
             result = self.fresh_any(st)
         else:
             result = self.sym_value(st, T_.ret, 'cb!%d' % next(st.fresh_counter))
-        # assumed contracts of externals: callout_assume("why", expr over `ret` / `ev`, on=<callable expression>)
+        # ghost: the value the call-out returned (trace[k].ret)
+        try:
+            field_store(st, 'T:ret', self.T_ANY, ev.t, self.event_arg(it, st, result))
+        except EngineError:
+            pass
+        self.apply_callout_assumes(it, st, f.t, result, ev)
+        return result
+
+    def apply_callout_assumes(self, it, st, ft, result, ev):
+        """assumed contracts of externals: callout_assume("why", expr over `ret` / `ev`, on=<callable expression>)"""
+        u = self.unit
         cas = u.of('callout_assume')
         if cas:
             env = {}
@@ -896,7 +909,7 @@ class Engine:
                     if 'on' in c.kw:
                         target = it.eval(c.kw['on'])
                         tt = target.t if isinstance(target, VFunc) else (self.bound_id(st, target) if isinstance(target, VBound) else None)
-                        if tt is None or z3.simplify(tt).get_id() != z3.simplify(f.t).get_id():
+                        if tt is None or z3.simplify(tt).get_id() != z3.simplify(ft).get_id():
                             continue
                     self.result.assumptions.add('assumed contract of an external callable: ' + ast.literal_eval(c.args[0]))
                     for e in c.args[1:]:
@@ -904,7 +917,6 @@ class Engine:
             finally:
                 st.spec -= 1
                 st.frames.pop()
-        return result
 
     def pure_app(self, it, f, args):
         ts = []
@@ -1258,6 +1270,21 @@ class Engine:
     # ------------------------------------------------------------------
     # spec builtins with unevaluated arguments
     # ------------------------------------------------------------------
+    def freeze(self, st, v, node):
+        """value of an expression evaluated in an earlier heap (old / at_entry / at_head): lists become snapshots of
+        their contents in that heap, object references keep identity only (no field access through them)"""
+        if isinstance(v, VUnion):
+            return VUnion([(c, self.freeze(st, a, node)) for c, a in flatten_union(v)])
+        if isinstance(v, VList):
+            return seq_of(st, v)
+        if isinstance(v, VRef) and v.cls != 'Event':
+            return VRef(v.t, v.cls, old=True)
+        if isinstance(v, VTuple):
+            return VTuple([self.freeze(st, x, node) for x in v.items])
+        if isinstance(v, (VTable, VQueue)):
+            raise EngineError('%s yields a container reference from an earlier state; wrap the whole expression' % ast.unparse(node))
+        return v
+
     def spec_special(self, it, name, node):
         st = it.st
         if name == 'old':
@@ -1265,14 +1292,7 @@ class Engine:
             saved_clock = st.clock
             st.clock = getattr(st, 'entry_clock', st.clock)
             try:
-                v = it.eval(node.args[0])
-                if isinstance(v, VList):
-                    v = seq_of(st, v)
-                elif isinstance(v, VRef) and v.cls != 'Event':
-                    v = VRef(v.t, v.cls, old=True)
-                elif isinstance(v, (VTable, VQueue)):
-                    raise EngineError('old(%s) yields an object reference; wrap the whole expression in old()' % ast.unparse(node.args[0]))
-                return v
+                return self.freeze(st, it.eval(node.args[0]), node)
             finally:
                 st.heap_stack.pop()
                 st.clock = saved_clock
@@ -1283,7 +1303,7 @@ class Engine:
             st.heap_stack.append(heap)
             st.frames.append(Frame(st.frames[-1].func, dict(st.frames[-1].locals, **locs), st.frames[-1].cls))
             try:
-                return it.eval(node.args[0])
+                return self.freeze(st, it.eval(node.args[0]), node)
             finally:
                 st.frames.pop()
                 st.heap_stack.pop()
@@ -1296,10 +1316,7 @@ class Engine:
             saved_clock = st.clock
             st.clock = clk
             try:
-                v = it.eval(node.args[0])
-                if isinstance(v, VList):
-                    v = seq_of(st, v)
-                return v
+                return self.freeze(st, it.eval(node.args[0]), node)
             finally:
                 st.clock = saved_clock
                 st.frames.pop()
